@@ -235,6 +235,50 @@ theorem fresh_draws_are_consecutive_blocks (stream : Bytes) (n k i : Nat) (hi : 
       congr 2
       rw [Nat.succ_mul, Nat.add_comm]
 
+/-- **a Base IV alone is never a nonce**: with neither an IV nor a Partial IV in the message the library draws a
+    fresh nonce — whatever the key holds as Base IV (absent, present, ill-typed) -/
+theorem base_iv_alone_is_not_a_nonce (u : CMap) (key : KeyView) (n : Nat) (iv piv : Option Bytes)
+    (hi : ivOf u = .ok iv) (hp : pivOf u = .ok piv) (hie : iv.getD [] = []) (hpe : piv.getD [] = []) :
+    selectNonce u key n = .ok .random := by
+  unfold ivOf at hi; unfold pivOf at hp
+  unfold selectNonce
+  rw [hi, hp]
+  simp [hie, hpe]
+
+/-- … and conversely the library draws a nonce only then: `random` is chosen exactly when both members are absent or
+    empty, so a caller's IV or Partial IV is never silently replaced -/
+theorem random_only_without_iv (u : CMap) (key : KeyView) (n : Nat) (h : selectNonce u key n = .ok .random) :
+    ∃ iv piv, ivOf u = .ok iv ∧ pivOf u = .ok piv ∧ iv.getD [] = [] ∧ piv.getD [] = [] := by
+  unfold selectNonce at h
+  unfold ivOf pivOf
+  cases hi : getBytes (u.lookup (Msg.lbl Iana.HeaderParameterIV)) with
+  | err e => simp [hi] at h
+  | panic e => cases hp : getBytes (u.lookup (Msg.lbl Iana.HeaderParameterPartialIV)) <;> simp [hi, hp] at h
+  | ok iv =>
+    cases hp : getBytes (u.lookup (Msg.lbl Iana.HeaderParameterPartialIV)) with
+    | err e => simp [hi, hp] at h
+    | panic e => simp [hi, hp] at h
+    | ok piv =>
+      refine ⟨iv, piv, rfl, rfl, ?_⟩
+      simp only [hi, hp] at h
+      by_cases hpl : (piv.getD []).length > 0
+      · simp only [hpl, if_true] at h
+        split at h
+        · cases h
+        · split at h
+          · cases h
+          · split at h
+            · split at h
+              · cases h
+              · split at h <;> cases h
+            · cases h
+            · cases h
+      · simp only [hpl, if_false] at h
+        have hpe : piv.getD [] = [] := List.eq_nil_of_length_eq_zero (by omega)
+        by_cases hie : (iv.getD []).isEmpty = true
+        · exact ⟨by simpa using hie, hpe⟩
+        · simp [hie] at h
+
 example : specContextIv [1, 2, 3, 4] [0xff] 4 = [1, 2, 3, 0xfb] := by decide
 example : xorIV [1, 2, 3, 4] [0xff] 4 = .ok [1, 2, 3, 0xfb] := by decide
 example : xorIV [1, 2, 3, 4] [1, 2, 3, 4, 5] 4 = .panic "xorIV-slice" := by decide
